@@ -92,6 +92,50 @@ GRV_CMD(cmap) {
             const unsigned st = shipped ? 1 : stride;         // shipped fonts: every code point
             for (uint32_t cp = (st > 1 ? uint32_t(g_cases % st) : 0); cp <= 0x10FFFF; cp += st) check(cp);
             gr_face_destroy(face);
+            // the same cmap on the way a text takes: a host font whose only rule changes nothing (argv[3]) keeps the
+            // glyph every character was given when the segment was filled; sequences put the probe code points next to
+            // each other, each supplementary one next to the BMP one with the same low 16 bits, in all three encodings
+            if (!shipped && argc > 3) {
+                TableFace tt;
+                if (!tt.load(argv[3])) { fprintf(stderr, "cannot read %s\n", argv[3]); return 2; }
+                tt.set("cmap", unhex((*v)["cmap_hex"].s));
+                gr_face *tface = tt.make(cached ? gr_face_cacheCmap : gr_face_default);
+                if (!tface) { report_fail("C13", "text host font with a well-formed synthesised cmap failed to load", tag); continue; }
+                std::vector<uint32_t> seq;
+                for (uint32_t cp : probes) {
+                    if (cp == 0 || (cp >= 0xD800 && cp <= 0xDFFF) || cp > 0x10FFFF) continue;
+                    seq.push_back(cp);
+                    const uint32_t twin = cp >= 0x10000 ? (cp & 0xFFFF) : (0x10000 | cp);
+                    if (twin && !(twin >= 0xD800 && twin <= 0xDFFF)) { seq.push_back(twin); seq.push_back(cp); }
+                }
+                for (size_t at = 0, tn = 0; at < seq.size(); at += 12, ++tn) {
+                    std::vector<uint32_t> t(seq.begin() + at, seq.begin() + std::min(seq.size(), at + 12));
+                    std::string u8; std::vector<uint16_t> u16;
+                    for (uint32_t c : t) {
+                        if (c < 0x80) u8 += char(c); else if (c < 0x800) { u8 += char(0xC0 | (c >> 6)); u8 += char(0x80 | (c & 63)); }
+                        else if (c < 0x10000) { u8 += char(0xE0 | (c >> 12)); u8 += char(0x80 | ((c >> 6) & 63)); u8 += char(0x80 | (c & 63)); }
+                        else { u8 += char(0xF0 | (c >> 18)); u8 += char(0x80 | ((c >> 12) & 63)); u8 += char(0x80 | ((c >> 6) & 63)); u8 += char(0x80 | (c & 63)); }
+                        if (c < 0x10000) u16.push_back(uint16_t(c)); else { u16.push_back(uint16_t(0xD800 + ((c - 0x10000) >> 10))); u16.push_back(uint16_t(0xDC00 + ((c - 0x10000) & 0x3FF))); }
+                    }
+                    const int enc = int((tn + g_cases) % 3);
+                    set_case("cmap text case=%s cached=%d text=%zu enc=%d", tag.c_str(), cached, tn, enc);
+                    gr_segment *seg = enc == 0 ? gr_make_seg(0, tface, 0, 0, gr_utf32, t.data(), t.size(), 0)
+                                    : enc == 1 ? gr_make_seg(0, tface, 0, 0, gr_utf16, u16.data(), t.size(), 0)
+                                               : gr_make_seg(0, tface, 0, 0, gr_utf8, u8.data(), t.size(), 0);
+                    ++lookups;
+                    if (!seg) { report_fail("C13", "gr_make_seg failed on the text host font", tag); continue; }
+                    std::vector<long long> got(t.size(), -1), want;
+                    for (uint32_t c : t) want.push_back(ref_of(ps, c));
+                    for (const gr_slot *sl = gr_seg_first_slot(seg); sl; sl = gr_slot_next_in_segment(sl)) { const unsigned o = gr_slot_original(sl); if (o < got.size()) got[o] = gr_slot_gid(sl); }
+                    if (got != want) {
+                        vj::W w; std::vector<long long> cps(t.begin(), t.end());
+                        w.arr("cps", cps).arr("got", got).arr("want", want).b("cached", cached != 0).i("enc", enc).str("case", tag).str("cmap_hex", (*v)["cmap_hex"].s);
+                        report_fail("C13", "the characters of a text did not get the glyphs the cmap assigns them", w.done());
+                    }
+                    gr_seg_destroy(seg);
+                }
+                gr_face_destroy(tface);
+            }
         }
     }
     fclose(f);
